@@ -177,7 +177,7 @@ class SignatureCarver:
                 serial_type_definition_end_offset = serial_type_definition_match.end(0)
                 file_offset = (
                     page_offset
-                    + freeblock.start_offset
+                    + freeblock.content_start_offset
                     + serial_type_definition_start_offset
                 )
 
